@@ -16,11 +16,11 @@ import (
 var c04Menus = map[string][][]string{
 	"tp":        {{"third-party"}, {"~third-party"}, {"first-party"}},
 	"type":      {{"script"}, {"script", "image"}, {"~script"}, {"image", "~font"}, {"~script", "~image", "~other"}},
-	"domain":    {{"zq.com"}, {"zq.com", "z.org"}, {"~zq.com"}, {"zq.com", "~q.zq.com"}, {"zq.*"}, {"~zq.*", "q.com"}, {"z.co.uk", "zq.*", "~q.z.co.uk"}},
+	"domain":    {{"zq.com"}, {"zq.com", "z.org"}, {"~zq.com"}, {"zq.com", "~q.zq.com"}, {"zq.*"}, {"~zq.*", "q.com"}, {"z.co.uk", "zq.*", "~q.z.co.uk"}, {"zq.*", "zq.qz"}, {"~zq.*", "~zq.qz"}, {"q.*", "zq.*", "q.zq"}},
 	"denyallow": {{"zq.com"}, {"zq.com", "z.org"}, {"q.co.uk", "z.zq.com", "com"}},
 	"dnstype":   {{"A"}, {"A", "AAAA"}, {"~A"}, {"~A", "AAAA"}, {"cname", "~MX", "TXT"}},
 	"ctag":      {{"a"}, {"b", "a"}, {"~a"}, {"c", "~a", "b"}, {"~d", "~b"}},
-	"client":    {{"a"}, {"'b'", "a"}, {"~a"}, {"1.2.3.4"}, {"1.2.3.0/24", "~1.2.3.4"}, {"2001:d00::/24"}, {"b", "1.2.0.0/16", "a", "~2001:dff::1"}, {"c", "b", "a", "ab"}},
+	"client":    {{"a"}, {"'b'", "a"}, {"~a"}, {"1.2.3.4"}, {"1.2.3.0/24", "~1.2.3.4"}, {"2001:d00::/24"}, {"b", "1.2.0.0/16", "a", "~2001:dff::1"}, {"c", "b", "a", "ab"}, {"1.2.3.0/24", "2001:d00::/24"}, {"~1.2.0.0/16", "~2001:d00::/24"}, {"2001:d00::/24", "1.2.3.4", "a"}},
 }
 
 var c04Order = []string{"tp", "type", "domain", "denyallow", "dnstype", "ctag", "client"}
@@ -178,7 +178,7 @@ func init() {
 		Jobs: func(tier string) []Job {
 			jobs := []Job{{Pkg: "rules", Func: "verifC04Vacuity", Vacuity: true}}
 			crs := curRun.Natives["c04"].([]c04Rule)
-			srcLens := []int64{-1, 1, 3, 6}
+			srcLens := []int64{-1, 1, 3, 4, 5, 6}
 			hostLens := []int64{-1, 1, 4}
 			if tier == "thorough" {
 				srcLens = []int64{-1, 1, 2, 3, 5, 6, 8}
@@ -218,7 +218,7 @@ func init() {
 		},
 		MustReach: []string{"c04.match", "c04.nomatch"},
 		Bounds: map[string]string{
-			"quick":    "rules: every single modifier of the grammar with every value set of its menu in every value order (1..4 values, negations, wildcard TLD, IPv4/IPv6/CIDR/quoted clients) plus 40 seeded pairs and 30 seeded multi-modifier rules; request: third-party flag, hostname-request flag, one-hot content type, 16-bit DNS type, client name 0..1 bytes, client IP absent / IPv4 with two symbolic bytes / IPv6 with two symbolic bytes, 0..2 sorted one-byte tags all symbolic; source host 1,3,6 symbolic bytes over {z,q,.} plus tail {'', .com, .co.uk} or empty; request host 1,4 bytes plus tail or empty",
+			"quick":    "rules: every single modifier of the grammar with every value set of its menu in every value order (1..4 values, negations, wildcard TLD, IPv4/IPv6/CIDR/quoted clients) plus 40 seeded pairs and 30 seeded multi-modifier rules; request: third-party flag, hostname-request flag, one-hot content type, 16-bit DNS type, client name 0..1 bytes, client IP absent / IPv4 with two symbolic bytes / IPv6 with two symbolic bytes, 0..2 sorted one-byte tags all symbolic; source host 1,3,4,5,6 symbolic bytes over {z,q,.} plus tail {'', .com, .co.uk} or empty; request host 1,4 bytes plus tail or empty",
 			"thorough": "400 pairs and 300 multi-modifier rules; source hosts up to 8 and request hosts up to 6 symbolic bytes",
 		},
 		Outside:     []string{"the pattern conjunct (C03/C05): the pattern is ||example.org^ and the URL is fixed", "zero or multi-bit request types (not a documented request)", "the Public Suffix List beyond the validated compact model", "netip.Prefix.Contains is executed from its real body on both sides of the comparison"},
